@@ -17,6 +17,8 @@ from lbry.wallet.bcd_data_stream import BCDataStream
 from lbry.wallet.script import (OutputScript, InputScript, Script, tokenize, push_data, DataToken, SmallIntegerToken)
 from lbry.wallet.transaction import Transaction, Output, Input
 from lbry.schema.purchase import Purchase
+from lbry.schema.claim import Claim
+from lbry.schema.support import Support
 from lbry.crypto.hash import hash160
 from lbry.schema.types.v2.purchase_pb2 import Purchase as PurchaseMessage
 from lbry.extras.daemon.json_response_encoder import JSONResponseEncoder
@@ -89,8 +91,8 @@ def ref_int(n):
 
 
 def ref_tokens(b):
-    """reference tokenizer with the stream semantics of BytesIO (short reads tolerated, a 2/4 byte length
-    of which only a part is present is an error). Tokens: ('D', bytes) | ('S', k) | ('O', opcode)."""
+    """reference tokenizer: a push must be complete (length field whole, declared number of bytes present), otherwise
+    the byte string is not a script (None). Tokens: ('D', bytes) | ('S', k) | ('O', opcode)."""
     out, i, n = [], 0, len(b)
     while i < n:
         op = b[i]
@@ -100,16 +102,14 @@ def ref_tokens(b):
                 size = op
             else:
                 w = {0x4c: 1, 0x4d: 2, 0x4e: 4}[op]
-                left = n - i
-                if left == 0:
-                    out.append(('D', b''))
-                    continue
-                if left < w:
+                if n - i < w:            # length field missing or partial
                     return None
                 size = int.from_bytes(b[i:i + w], 'little')
                 i += w
+            if n - i < size:             # the push runs past the end of the script
+                return None
             out.append(('D', b[i:i + size]))
-            i = min(n, i + size)
+            i += size
         elif 0x51 <= op <= 0x60:
             out.append(('S', op - 0x50))
         else:
@@ -311,8 +311,8 @@ def impl_row_type(script):
     tx.add_outputs([Output(1000, script)])
     try:
         row = ledger().db.txo_to_row(tx, tx.outputs[0])
-    except UnicodeDecodeError:                    # claim_name.decode() of a non-utf-8 name, after the type was decided
-        return 'undecodable-name'
+    except Exception as e:  # noqa   (reported by the monitors: whatever the name / payload bytes, the row must be built)
+        return 'raised:' + err_class(e)
     t = row.get('txo_type', 0)
     return 1 if t in (1, 2, 5, 6) else t
 
@@ -582,6 +582,8 @@ def monitor_generated(kind, name, plain, py, src):
             diff = [FLAG_NAMES[i] for i in range(len(exp)) if got[i] != exp[i]]
             return f'{name}: a {klass} script is classified wrongly: {diff}'
         rt = impl_row_type(s)
+        if isinstance(rt, str) and rt.startswith('raised:'):
+            return f'{name}: a {klass} script cannot be stored: txo_to_row {rt} (arbitrary names and payloads must still be recorded)'
         if not isinstance(rt, str) and rt != ROW_OF_CLASS.get(klass, 0):
             return f'{name}: txo_to_row stores type {rt} for a {klass} script'
     return None
@@ -781,7 +783,7 @@ def monitor_parse(kind, src, impl):
         if st == 'ambiguous':
             return 'two output templates have the shape of this script: ' + ', '.join(h[0] for h in info)
         if st == 'error':
-            return None if impl.get('error') == 'ValueError' else f'partial PUSHDATA2/4 length: expected ValueError, got {impl}'
+            return None if impl.get('error') == 'ValueError' else f'a push runs past the end of the script (or its length field is incomplete): the opcodes do not say this, expected ValueError, got {impl}'
         if st == 'empty':
             return None if impl.get('template') == 'no_script' else f'empty script parsed as {impl}'
         if st == 'nomatch':
@@ -798,13 +800,16 @@ def monitor_parse(kind, src, impl):
             return f'a {klass} script ({name}) is classified wrongly: {diff}'
         if sum([impl['flags'][9], impl['flags'][10], impl['flags'][12]]) > 1:
             return 'claim / support / purchase flags are not exclusive'
+        if isinstance(impl['row_type'], str) and impl['row_type'].startswith('raised:'):
+            return (f'a {klass} script ({name}) cannot be stored: txo_to_row {impl["row_type"]} '
+                    f'(arbitrary names and payloads must still be recorded)')
         if not isinstance(impl['row_type'], str) and impl['row_type'] != ROW_OF_CLASS.get(klass, 0):
             return f'txo_to_row stores type {impl["row_type"]} for a {klass} script'
         return None
     if kind == 'input':
         st, info = ref_match_input(src)
         if st == 'error':
-            return None if impl.get('error') == 'ValueError' else f'partial PUSHDATA2/4 length: expected ValueError, got {impl}'
+            return None if impl.get('error') == 'ValueError' else f'a push runs past the end of the script (or its length field is incomplete): the opcodes do not say this, expected ValueError, got {impl}'
         if st == 'empty':
             return None if impl.get('template') == 'no_script' else f'empty script parsed as {impl}'
         if st == 'nomatch':
@@ -1291,14 +1296,29 @@ async def wallet_run(case):
             prev = Transaction(height=1).add_outputs([Output.pay_pubkey_hash(10 ** 10, bytes([n + 1]) * 20)])
             tx = Transaction(height=10 + n, is_verified=True).add_inputs([Input.spend(prev.outputs[0])])
             tx.add_outputs(wallet_outputs(tx_spec, my_hash))
-            await ledger_.db.insert_transaction(tx)
-            await ledger_.db.save_transaction_io(tx, address, my_hash, f'{tx.id}:{10 + n}:')
             ids[tx.id] = n
+            try:
+                await ledger_.db.insert_transaction(tx)
+                await ledger_.db.save_transaction_io(tx, address, my_hash, f'{tx.id}:{10 + n}:')
+            except Exception as ex:  # noqa
+                res.setdefault('store_errors', {})[n] = err_class(ex)
             res['scripts'].append([o.script.source for o in tx.outputs])
         # 1. the daemon's view
         encoder = JSONResponseEncoder(ledger=ledger_)
-        txs = await ledger_.db.get_transactions(wallet=wallet, accounts=[source], include_is_my_output=True,
-                                                include_is_spent=True)
+        try:
+            txs = await ledger_.db.get_transactions(wallet=wallet, accounts=[source], include_is_my_output=True,
+                                                    include_is_spent=True)
+        except Exception as ex:  # noqa
+            res['listing_error'] = 'get_transactions: ' + err_class(ex)
+            return res
+        try:
+            listed = await ledger_.db.get_txos(wallet=wallet, accounts=[source])
+            res['listed'] = sorted((ids[t.tx_ref.id], t.position) for t in listed)
+            for t in listed:
+                await ledger_.maybe_has_channel_key(t) if hasattr(ledger_, 'maybe_has_channel_key') and False else None
+        except Exception as ex:  # noqa
+            res['listing_error'] = 'get_txos: ' + err_class(ex)
+            return res
         enc = {}
         for tx in txs:
             try:
@@ -1333,6 +1353,23 @@ def check_wallet(run, model, case):
     finally:
         loop.close()
     exp_utxos, bad = [], None
+    if res.get('store_errors'):
+        n, e = sorted(res['store_errors'].items())[0]
+        kinds = [ref_classify_output(x) for x in res['scripts'][n]]
+        kinds = [k[1][1] if k[0] == 'match' else k[0] for k in kinds]
+        bad = (f'transaction {n} with outputs {kinds} could not be stored ({e}): its claim / support outputs are not recorded as '
+               f'locked and the payments beside them are lost')
+    elif res.get('listing_error'):
+        bad = f'listing the wallet raised {res["listing_error"]}'
+    if bad:
+        run.violation(case, bad, signature={'op': 'wallet', 'txs': case['txs']})
+        return
+    mine_expected = sorted((n, i) for n, tx_spec in enumerate(case['txs']) for i, o in enumerate(tx_spec)
+                           if o.get('mine') and o['template'].endswith('pay_pubkey_hash'))
+    if res.get('listed') != mine_expected:
+        run.violation(case, f'Database.get_txos lists {res.get("listed")}, the outputs paying the wallet are {mine_expected}',
+                      signature={'op': 'wallet', 'txs': case['txs']})
+        return
     for n, scripts in enumerate(res['scripts']):
         view = model.call('tx_view', scripts=[x.hex() for x in scripts])
         refs = [ref_classify_output(x) for x in scripts]
@@ -1404,16 +1441,85 @@ def gen_wallet_case(rng, chain='single'):
     return {'op': 'wallet', 'chain': chain, 'txs': txs}
 
 
-def gen_wallet_values(rng, name):
+# payloads the claim / support decoders fail on in different ways (IndexError, KeyError, JSON errors, DecodeError) and names
+# that are not UTF-8: classification comes from the opcodes, so all of them must still be stored as locked claims / supports
+ODD_PAYLOADS = [b'', b'{"sources": {"lbry_sd_hash": "aa"}, "fee": {"LBC": {"amount": "x", "address": 1}}}', b'{"ver": "0.0.3"}', b'{}', b'[]', b'{"a": 1}', b'{', b'\x00', b'\x01', b'\x01' + b'\x11' * 20, b'\xff\xfe not a claim']
+ODD_NAMES = [b'\xff\xfe', b'\xc3', b'ok\x80', b'\x00', b'']
+
+
+def gen_wallet_values(rng, name, odd=None):
     vals = {}
     for f in FIELDS['output'][name]:
         if f == 'claim_name':
-            vals[f] = {'b': {'hex': rng.choice([b'a', b'name', b'@channel', 'ünï'.encode()]).hex()}}
+            pool = ODD_NAMES if odd == 'name' else [b'a', b'name', b'@channel', 'ünï'.encode()]
+            vals[f] = {'b': {'hex': rng.choice(pool).hex()}}
         elif f in ('claim_id', 'pubkey_hash'):
             vals[f] = {'b': {'hex': rng.randbytes(20).hex()}}
+        elif odd == 'payload' or rng.random() < 0.3:
+            vals[f] = {'b': {'hex': rng.choice(ODD_PAYLOADS).hex()}}
         else:
             vals[f] = {'b': {'hex': rng.randbytes(rng.choice([1, 5, 40])).hex()}}
     return vals
+
+
+def gen_wallet_odd_case(rng, odd):
+    """every claim-involved kind with an undecodable payload / a non-UTF-8 name, each next to an ordinary payment"""
+    txs = [[{'template': 'pay_pubkey_hash', 'values': gen_wallet_values(rng, 'pay_pubkey_hash'), 'mine': True, 'amount': 3 * 10 ** 8}]]
+    for name in ('claim_name+pay_pubkey_hash', 'update_claim+pay_pubkey_hash', 'support_claim+pay_pubkey_hash',
+                 'support_claim+data+pay_pubkey_hash'):
+        txs.append([{'template': name, 'values': gen_wallet_values(rng, name, odd), 'mine': True},
+                    {'template': 'pay_pubkey_hash', 'values': gen_wallet_values(rng, 'pay_pubkey_hash'), 'mine': True, 'amount': 10 ** 6}])
+    return {'op': 'wallet', 'chain': 'single', 'txs': txs}
+
+
+def check_clear_signature(run, model, case):
+    """an output built from a signed claim / support whose signature is then cleared (Transaction.claim_update without a signing
+    channel, collection_update --clear_channel): the script bytes must say what the values say"""
+    run.case(case, nontrivial=True)
+    run.count('clear_signature:' + case['kind'])
+    pkh, cid, name = bytes.fromhex(case['pubkey_hash']), case['claim_id'], case['name']
+    if case['kind'] == 'support+data':
+        sg = Support()
+        sg.emoji = case.get('title', 'x')
+        tname = 'support_claim+data+pay_pubkey_hash'
+    else:
+        sg = Claim()
+        sg.stream.title = case.get('title', 'x')
+        tname = 'update_claim+pay_pubkey_hash' if case['kind'] == 'update' else 'claim_name+pay_pubkey_hash'
+    sg.signing_channel_hash = bytes.fromhex(case['channel'])
+    sg.signature = bytes.fromhex(case['signature'])
+    if case['kind'] == 'support+data':
+        txo = Output.pay_support_data_pubkey_hash(1000, name, cid, sg, pkh)
+        field = 'support'
+    elif case['kind'] == 'update':
+        txo = Output.pay_update_claim_pubkey_hash(1000, name, cid, sg, pkh)
+        field = 'claim'
+    else:
+        txo = Output.pay_claim_name_pubkey_hash(1000, name, sg, pkh)
+        field = 'claim'
+    signed_source = txo.script.source
+    txo.clear_signature()
+    src = txo.script.source
+    sig = {'op': 'clear_signature', 'kind': case['kind']}
+    try:
+        fresh = OutputScript(src)
+        ok_t = fresh.template.name == tname
+        wire_payload = fresh.values[field]
+    except Exception as e:  # noqa
+        run.violation(case, f'after clear_signature the script no longer parses ({err_class(e)})', signature=sig)
+        return
+    held = bytes(txo.script.values[field])
+    if not ok_t or wire_payload != held:
+        run.violation(case, f'after clear_signature the script bytes still carry the old payload: values say '
+                            f'{held.hex()[:60]}, the script says {wire_payload.hex()[:60]} -- the generated script does not parse '
+                            f'back to the output\'s values', signature=sig)
+        return
+    decoded = (Support if field == 'support' else Claim).from_bytes(wire_payload)
+    if decoded.is_signed or src == signed_source:
+        run.violation(case, 'after clear_signature the serialised output is still signed by the old channel', signature=sig)
+        return
+    vals = {k: {'b': (bytes(v) if not isinstance(v, bytes) else v).hex()} for k, v in txo.script.values.items()}
+    run.compare('C15.clear_signature', case, {'source': src.hex()}, {'source': model.call('generate', template=tname, values=vals)})
 
 
 def dispatch(run, model, case):
@@ -1432,6 +1538,8 @@ def dispatch(run, model, case):
         check_purchase_row(run, model, case)
     elif op == 'wallet':
         check_wallet(run, model, case)
+    elif op == 'clear_signature':
+        check_clear_signature(run, model, case)
     else:
         raise ValueError('unknown case ' + op)
 
@@ -1471,7 +1579,7 @@ def main(run):
     # ---- tokenize ----
     for h in FIXED_SCRIPTS:
         check_tokenize(run, model, {'op': 'tokenize', 'script': {'hex': h}})
-    for _ in range(vlib.scaled(run.tier, 1500, 40000)):
+    for _ in range(vlib.scaled(run.tier, 1000, 40000)):
         c = gen_parse_case(rng)
         check_tokenize(run, model, {'op': 'tokenize', 'script': c['script']})
 
@@ -1484,7 +1592,7 @@ def main(run):
                     continue
                 check_generate(run, model, {'op': 'generate', 'kind': kind, 'template': name,
                                             'values': gen_values(rng, kind, name, force_len=n, force_field=f)})
-        for _ in range(vlib.scaled(run.tier, 25, 700)):
+        for _ in range(vlib.scaled(run.tier, 18, 700)):
             check_generate(run, model, {'op': 'generate', 'kind': kind, 'template': name,
                                         'values': gen_values(rng, kind, name)})
     for h in HEIGHTS:
@@ -1508,7 +1616,7 @@ def main(run):
     for h in FIXED_SCRIPTS:
         for kind in ('output', 'input', 'sub_timelock', 'sub_multi_sig'):
             check_parse(run, model, {'op': 'parse', 'kind': kind, 'script': {'hex': h}})
-    for _ in range(vlib.scaled(run.tier, 3500, 120000)):
+    for _ in range(vlib.scaled(run.tier, 2800, 120000)):
         check_parse(run, model, gen_parse_case(rng))
 
     # ---- through the transaction wire format ----
@@ -1547,8 +1655,18 @@ def main(run):
             check_tx(run, model, {'op': 'tx', 'outputs': [small], 'input': {'template': name, 'values': vals}})
 
     # ---- the wallet on top: stored type, coin filter, Account.fund(everything=True), the daemon's JSON encoder ----
-    for i in range(vlib.scaled(run.tier, 10, 300)):
-        check_wallet(run, model, gen_wallet_case(rng, chain='hd' if i % 7 == 3 else 'single'))
+    for i in range(vlib.scaled(run.tier, 5, 300)):
+        check_wallet(run, model, gen_wallet_case(rng, chain='hd' if i % 5 == 3 else 'single'))
+    for i in range(vlib.scaled(run.tier, 2, 120)):
+        check_wallet(run, model, gen_wallet_odd_case(rng, 'payload' if i % 2 == 0 else 'name'))
+
+    # ---- signature cleared after the script was generated ----
+    for kind in ('claim', 'update', 'support+data'):
+        for _ in range(vlib.scaled(run.tier, 3, 60)):
+            check_clear_signature(run, model, {
+                'op': 'clear_signature', 'kind': kind, 'name': rng.choice(['name', '@chan', 'a']), 'claim_id': rng.randbytes(20).hex(),
+                'title': rng.choice(['hello', 'x', 'title ' * 5]), 'pubkey_hash': rng.randbytes(20).hex(),
+                'channel': rng.randbytes(20).hex(), 'signature': rng.randbytes(64).hex()})
 
     # ---- purchase typing at the row level ----
     good = Purchase('ab' * 20).to_bytes()
